@@ -34,6 +34,7 @@ func checkC10(p *Prog, r *Report) {
 	sliceEqualityHelpers(p, r, "R8")
 	r.Rule("R12", "RemoveEntityByAddress drops exactly the entity it hands back to the cascade (retain truth table: keep ⇔ not the entity found for the address): an entry dropped on the side keeps its subscriptions, bindings and caches — also past the disconnect, which walks the remaining entities (shared with C06-R12)")
 	applyRetain(p, r, "R12", "spine", "DeviceRemote", "RemoveEntityByAddress", retainSpec{Field: F("DeviceRemote.entities"), Required: map[string]string{"entity": "=$"}})
+	entityListWriters(p, r, "R13")
 	r.Rule("R7", "entity removal cascade (C06-R1/R2): the entity removed is the one announced as removed, and the subscription, binding and client-cache clean-ups are applied to that entity's own address, only if it was found")
 	entityRemovalCascade(p, r, "R7", "R7")
 	approvalCleanupRule(p, r, "R9")
